@@ -1,5 +1,6 @@
 import RisorModel.Util
 import RisorModel.C08.Model
+import RisorModel.C08.Heap
 /-!
 Line-protocol front end of the C08 model (requests after the leading `C08` field).
 
@@ -24,6 +25,15 @@ Requests (reply: impl-result TAB spec-on-go TAB spec-on-impl TAB guard-ids):
                         GO = panic | error | (ok (st V*) (l O*))   received values, returned objects
   reuse HIST N GO       one VM, the supplies HIST = (h (NAME T V)*) in the order they were made,
                         then a run that reads global NAME = N;  GO = panic | error | (ok O)
+  hist ROOTS HEAP OPS GO   a history over an object graph (Heap.lean).
+                        ROOTS = (roots A*)  the object each global name g0, g1, … stands for
+                        HEAP  = (heap NODE*), NODE = (i N) | (r A) | (r -) | (st NODE*) | (seq NODE*)
+                        OPS   = (ops OP*), OP = (get R PATH) | (set R PATH N) | (link R PATH R PATH)
+                                | (new R PATH NODE) | (gset R PATH N) | (gpoint R PATH A|-)
+                                | (grepl R PATH NODE) | (gnew NODE),  PATH = (p N*)
+                        GO    = (res STEP*), STEP = (OUT =) | (OUT (heap NODE*))   "=": heap as before
+                                OUT = (v (i N)) | (v (r A)) | (v (r -)) | (v agg) | done | error | panic
+                        reply: impl-trace TAB spec-on-go TAB spec-on-impl TAB guard-ids TAB first refused step of GO
 -/
 namespace Risor.C08
 open Risor.Util
@@ -366,7 +376,188 @@ def specCall (F : FOps) (pt : GoTy) (o : Obj) (res : Outcome (GoVal × Obj)) : B
   | .error => true
   | .ok (x, r) => repr F pt x o && repr F pt x r
 
+/-! ### histories over an object graph (Heap.lean) -/
+
+mutual
+def showNode : Node → String
+  | .int i => "(i " ++ toString i ++ ")"
+  | .ref none => "(r -)"
+  | .ref (some a) => "(r " ++ toString a ++ ")"
+  | .struct fs => "(st" ++ showNodes fs ++ ")"
+  | .seq xs => "(seq" ++ showNodes xs ++ ")"
+def showNodes : Nodes → String
+  | .nil => ""
+  | .cons n r => " " ++ showNode n ++ showNodes r
+end
+
+def showHeap (h : Heap) : String := "(heap" ++ h.foldl (fun s n => s ++ " " ++ showNode n) "" ++ ")"
+
+def showRes : Res → String
+  | .val (.int i) => "(v (i " ++ toString i ++ "))"
+  | .val (.ptr none) => "(v (r -))"
+  | .val (.ptr (some a)) => "(v (r " ++ toString a ++ "))"
+  | .val .agg => "(v agg)"
+  | .done => "done"
+  | .error => "error"
+  | .panic => "panic"
+
+def showTrace : Heap → List (Heap × Res) → String
+  | _, [] => ""
+  | h, (h', r) :: rest =>
+    " (" ++ showRes r ++ " " ++ (if heapEq h h' then "=" else showHeap h') ++ ")" ++ showTrace h' rest
+
+mutual
+def pNode : Nat → P Node
+  | 0, _ => none
+  | _ + 1, "(" :: "i" :: x :: ")" :: r => do some (.int (← x.toInt?), r)
+  | _ + 1, "(" :: "r" :: "-" :: ")" :: r => some (.ref none, r)
+  | _ + 1, "(" :: "r" :: x :: ")" :: r => do some (.ref (some (← x.toNat?)), r)
+  | n + 1, "(" :: "st" :: r => do let (xs, r) ← pNodes n r; some (.struct xs, r)
+  | n + 1, "(" :: "seq" :: r => do let (xs, r) ← pNodes n r; some (.seq xs, r)
+  | _, _ => none
+def pNodes : Nat → P Nodes
+  | 0, _ => none
+  | _ + 1, ")" :: r => some (.nil, r)
+  | n + 1, r => do let (x, r) ← pNode n r; let (xs, r) ← pNodes n r; some (.cons x xs, r)
+end
+
+def nodesToList : Nodes → List Node
+  | .nil => []
+  | .cons n r => n :: nodesToList r
+
+def pHeap : Nat → P Heap
+  | n, "(" :: "heap" :: r => do let (xs, r) ← pNodes n r; some (nodesToList xs, r)
+  | _, _ => none
+
+def pRoots : Nat → P (List Nat)
+  | n, "(" :: "roots" :: r => pNums n r
+  | _, _ => none
+
+def pPath : Nat → P (List Nat)
+  | n, "(" :: "p" :: r => pNums n r
+  | _, _ => none
+
+def pOptNat : P (Option Nat)
+  | "-" :: r => some (none, r)
+  | x :: r => do some (some (← x.toNat?), r)
+  | _ => none
+
+def pHOp : Nat → P HOp
+  | n, "(" :: "get" :: x :: r => do let (p, r) ← pPath n r; close (.scriptGet (← x.toNat?) p) r
+  | n, "(" :: "set" :: x :: r => do
+    let (p, r) ← pPath n r
+    match r with
+    | v :: r => close (.scriptSet (← x.toNat?) p (← v.toInt?)) r
+    | _ => none
+  | n, "(" :: "link" :: x :: r => do
+    let (p, r) ← pPath n r
+    match r with
+    | y :: r => do let (p', r) ← pPath n r; close (.scriptLink (← x.toNat?) p (← y.toNat?) p') r
+    | _ => none
+  | n, "(" :: "new" :: x :: r => do
+    let (p, r) ← pPath n r; let (b, r) ← pNode n r; close (.scriptNew (← x.toNat?) p b) r
+  | n, "(" :: "gset" :: x :: r => do
+    let (p, r) ← pPath n r
+    match r with
+    | v :: r => close (.goSet (← x.toNat?) p (← v.toInt?)) r
+    | _ => none
+  | n, "(" :: "gpoint" :: x :: r => do
+    let (p, r) ← pPath n r; let (t, r) ← pOptNat r; close (.goRepoint (← x.toNat?) p t) r
+  | n, "(" :: "grepl" :: x :: r => do
+    let (p, r) ← pPath n r; let (b, r) ← pNode n r; close (.goReplace (← x.toNat?) p b) r
+  | n, "(" :: "gnew" :: r => do let (b, r) ← pNode n r; close (.goNew b) r
+  | _, _ => none
+
+def pHOps : Nat → P (List HOp)
+  | 0, _ => none
+  | _ + 1, ")" :: r => some ([], r)
+  | n + 1, r => do let (o, r) ← pHOp n r; let (os, r) ← pHOps n r; some (o :: os, r)
+
+def pOpsList : Nat → P (List HOp)
+  | n, "(" :: "ops" :: r => pHOps n r
+  | _, _ => none
+
+def pRes : P Res
+  | "(" :: "v" :: "(" :: "i" :: x :: ")" :: ")" :: r => do some (.val (.int (← x.toInt?)), r)
+  | "(" :: "v" :: "(" :: "r" :: "-" :: ")" :: ")" :: r => some (.val (.ptr none), r)
+  | "(" :: "v" :: "(" :: "r" :: x :: ")" :: ")" :: r => do some (.val (.ptr (some (← x.toNat?))), r)
+  | "(" :: "v" :: "agg" :: ")" :: r => some (.val .agg, r)
+  | "done" :: r => some (.done, r)
+  | "error" :: r => some (.error, r)
+  | "panic" :: r => some (.panic, r)
+  | _ => none
+
+/-- the reported trace; `=` stands for the heap before the step -/
+def pSteps : Nat → Heap → P (List (Heap × Res))
+  | 0, _, _ => none
+  | _ + 1, _, ")" :: r => some ([], r)
+  | n + 1, h, "(" :: r => do
+    let (res, r) ← pRes r
+    let (h', r) ← (match r with
+      | "=" :: r => some (h, r)
+      | r => pHeap n r)
+    let (_, r) ← close () r
+    let (rest, r) ← pSteps n h' r
+    some ((h', res) :: rest, r)
+  | _, _, _ => none
+
+def pTrace (h : Heap) : Nat → P (List (Heap × Res))
+  | n, "(" :: "res" :: r => pSteps n h r
+  | _, _ => none
+
+/-- the recorded findings a script step falls under on heap `h` -/
+def stepGuards (roots : List Nat) (h : Heap) : HOp → List String
+  | .scriptGet r p => match roots[r]? with
+    | some a => if nilOnPath h ⟨a, []⟩ p then ["C08-proxy-type-unchecked"] else []
+    | none => []
+  | .scriptSet r p _ => match roots[r]? with
+    | some a => (if nilOnPath h ⟨a, []⟩ p then ["C08-proxy-type-unchecked"] else [])
+        ++ (if copyOnPath h ⟨a, []⟩ p then ["C08-slice-element-write-lost"] else [])
+    | none => []
+  | .scriptNew r p _ => match roots[r]? with
+    | some a => (if nilOnPath h ⟨a, []⟩ p then ["C08-proxy-type-unchecked"] else [])
+        ++ (if copyOnPath h ⟨a, []⟩ p then ["C08-slice-element-write-lost"] else [])
+        ++ (match goRead h a p with
+          | some (.struct _) => ["C08-struct-field-set-panics"]
+          | _ => [])
+    | none => []
+  | .scriptLink r p r' p' => match roots[r]?, roots[r']? with
+    | some a, some a' => (if nilOnPath h ⟨a, []⟩ p || nilOnPath h ⟨a', []⟩ p' then ["C08-proxy-type-unchecked"] else [])
+        ++ (if copyOnPath h ⟨a, []⟩ p then ["C08-slice-element-write-lost"] else [])
+        ++ (match goRead h a p with
+          | some (.struct _) => ["C08-struct-field-set-panics"]
+          | _ => [])
+    | _, _ => []
+  | _ => []
+
+/-- all steps the judge refuses, each with its guards -/
+def refused (roots : List Nat) : Heap → List HOp → List (Heap × Res) → Nat → List (Nat × List String)
+  | h, op :: ops, out :: outs, k =>
+    (if stepOK roots h op out then [] else [(k, stepGuards roots h op)]) ++ refused roots out.1 ops outs (k + 1)
+  | _, [], [], _ => []
+  | _, _, _, k => [(k, [])]
+
+def histReply (roots : List Nat) (h : Heap) (ops : List HOp) (go : List (Heap × Res)) : String :=
+  let impl := traceImpl roots h ops
+  let rg := refused roots h ops go 0
+  let ri := refused roots h ops impl 0
+  let gs : List String := if rg.all (fun e => !e.2.isEmpty) then (rg.map (·.2)).flatten.eraseDups else []
+  "(res" ++ showTrace h impl ++ ")\t" ++ verdict rg.isEmpty ++ "\t" ++ verdict ri.isEmpty ++ "\t"
+    ++ (match gs with
+      | [] => "-"
+      | g :: r => r.foldl (fun s x => s ++ "," ++ x) g)
+    ++ "\t" ++ (match rg with
+      | [] => "-"
+      | e :: _ => toString e.1)
+
 def handle : List String → String
+  | ["hist", roots, heap, ops, go] =>
+    match parseAll pRoots roots, parseAll pHeap heap, parseAll pOpsList ops with
+    | some roots, some heap, some ops =>
+      match parseAll (pTrace heap) go with
+      | some go => histReply roots heap ops go
+      | none => "error\tbad-trace"
+    | _, _, _ => "error\tbad-request"
   | ["rt", m, ty, v, go] =>
     match pMode m, parseAll pTy ty, parseAll pVal v, parseAll (pOutcome pRtPayload) go with
     | some m, some ty, some v, some go =>
